@@ -191,3 +191,17 @@ def selects_like_indexing(expr, index_text, seq_text, extra=None):
             if got != want:
                 return False, (i, n, got, want)
     return True, None
+
+
+def holds_somewhere(test, env_grid):
+    """First environment of ``env_grid`` (list of dicts text -> number) in which ``test`` is true; None when false
+    everywhere; ('?', reason) when the test cannot be interpreted."""
+    for env in env_grid:
+        try:
+            if bool(_ev(test, env)):
+                return env
+        except Unsupported as u:
+            return ("?", f"unsupported expression {u}")
+        except Exception as ex:
+            return ("?", type(ex).__name__)
+    return None
